@@ -126,6 +126,16 @@ KStep(Ko, e) ==
       [] e.ev = "ret" -> OnRet(Ko, e)
       [] e.ev = "killed" -> V(TRUE, Ko, "")
       [] e.ev = "obs" -> OnObs(Ko, e)
+      \* the creation of a sharded cache was killed; a later process opens the directory the same way
+      [] e.ev = "fanout_obs" ->
+            IF e.opened # 1 THEN V(FALSE, Ko, "C07 a sharded cache whose creation was killed cannot be opened again")
+            ELSE IF e.limits_ok # 1
+            THEN V(FALSE, Ko, "C07/C13 after a kill during the creation of a sharded cache the total size limit is not divided among the shards (thousandths per shard: "
+                              \o ToJson(e.limits) \o ")")
+            ELSE IF e.settings_ok # 1 THEN V(FALSE, Ko, "C07 a shard opened after the kill lacks the settings the cache was created with")
+            ELSE IF e.warnings # 0 THEN V(FALSE, Ko, "C07 check() of the sharded cache reports an inconsistency after the kill")
+            ELSE IF e.usable # 1 THEN V(FALSE, Ko, "C07 the sharded cache is not usable after the kill")
+            ELSE V(TRUE, Ko, "")
       [] OTHER -> V(FALSE, Ko, "harness: unknown event")
 
 KInit == tid \in 1..NT /\ l = 1 /\ K = InitK(Traces[tid]) /\ done = FALSE
